@@ -84,7 +84,7 @@ func TestC12_Slice(t *testing.T) {
 	if thorough() {
 		maxN = 40
 	}
-	rapid.Check(t, func(t *rapid.T) {
+	check(t, func(t *rapid.T) {
 		n := rapid.IntRange(0, maxN).Draw(t, "n")
 		subj := sliceSubject(t, n)
 		s := ast.Step{Kind: ast.SSlice, Start: optHostile(t, "start", n), Stop: optHostile(t, "stop", n)}
